@@ -419,7 +419,37 @@ impl<'arena> PrettyFormatter<'arena> {
     }
 
     fn with_leading_comments(&self, entity: EntityId, document: RcDoc<'arena>) -> RcDoc<'arena> {
-        self.with_comments(self.arena.trivia.leading_comments(entity), document)
+        let comments = self.arena.trivia.leading_comments(entity);
+        // A block construct starts a line of its own (`block_like`): the comment written in
+        // front of it on the same line ends that line, otherwise no layout exists.
+        let Some((last, rest)) = comments.split_last() else { return document };
+        if last.separation_after() == LineSeparation::SameLine
+            && last.comment().as_text().is_none()
+            && self.starts_own_line(entity)
+        {
+            return self
+                .with_comments(rest, RcDoc::nil())
+                .append(self.comment(last.comment()))
+                .append(RcDoc::hardline())
+                .append(document);
+        }
+        self.with_comments(comments, document)
+    }
+
+    /// Whether the entity is printed through [`Self::block_like`].
+    fn starts_own_line(&self, entity: EntityId) -> bool {
+        let EntityId::Term(term) = entity else { return false };
+        matches!(
+            self.arena.terms[&term],
+            Term::Do(_)
+                | Term::Let(_)
+                | Term::Param(_)
+                | Term::ContextBind(_)
+                | Term::Data(_)
+                | Term::CoData(_)
+                | Term::Match(_)
+                | Term::CoMatch(_)
+        )
     }
 
     fn with_before_arm_comments(&self, entity: EntityId, document: RcDoc<'arena>) -> RcDoc<'arena> {
